@@ -21,6 +21,8 @@ KINDS = {
     "p": {"task_kind": "annot"},  # task with annotated parameters (a plain class and an int) given by keyword
     "e": {"kind": "malformed", "payload": "empty"},  # empty payload
     "q": {"kind": "malformed", "payload": "sentinel-lookalike"},  # payload equal to the internal end marker
+    "l": {"labels": {"prio": 3, "flag": True}, "typed": "partial"},  # typed labels plus un-typed ones stamped later by a client middleware
+    "t": {"labels": {"prio": 3, "raw": b"\x00"}, "typed": "all"},  # labels as a kicker sends them
 }
 
 META = {
@@ -37,6 +39,7 @@ META = {
         "distinct_nontrivial = distinct terminal per-message event logs."
         " Fault-overlap family (mc/fault_overlap.py): message X suffers one fault out of {pre_execute/post_execute/post_save/on_error hook, sync or async ack, result backend} x {RuntimeError, CancelledError, TimeoutError}, backend failing once, body raise/CancelledError/timeout/no-result, malformed/unknown message, broker stream error, while the healthy message Y has suspension points before, inside and after its function and the stop request may arrive at any point; Y (and X where the fault does not prevent it) is invoked exactly once and listen() does not return while a taken message still waits to be invoked (W=None)."
         " Repeated faults (mc/fault_overlap.py::repeats): the same fault k times in a row (k in 3..6; thorough up to 10) on one worker, then healthy messages - a counter, pool, budget or throttle inside the worker must not change what happens at the k-th occurrence."
+        " Message kinds 'l' / 't': labels as a kicker sends them (prepared text + labels_types), fully typed and with un-typed labels added later by a client middleware."
     ),
     "assumptions": [
         "asyncio semantics as implemented by BaseEventLoop (the loop is a subclass; only clock/selector are replaced)",
@@ -62,7 +65,7 @@ def scenarios(tier: str) -> List[Dict[str, Any]]:
         words = ["".join(w) for n in (1, 2) for w in itertools.product("vrmu", repeat=n)]
         words += ["".join(w) for w in itertools.product("vm", repeat=3)] + ["vru", "uvr", "rmv"]
         words += ["s", "a", "sv", "vs", "av", "va", "sa", "ms", "am", "svs", "ava"]
-        words += ["x", "xv", "vx", "kv", "e", "ev", "ve", "q", "qv", "vq", "vev", "vvvv", "p", "pv", "vp"]
+        words += ["x", "xv", "vx", "kv", "e", "ev", "ve", "q", "qv", "vq", "vev", "vvvv", "p", "pv", "vp", "l", "lv", "vl", "t", "tl"]
         l1_words = ["v", "vv", "vm", "mv"]
         l1_cfg = [(a, p, n) for a in (1, 2) for p in (0, 1) for n in (None, 1, 2)]
         l2_words: List[str] = []
@@ -72,7 +75,7 @@ def scenarios(tier: str) -> List[Dict[str, Any]]:
         words = ["".join(w) for n in (1, 2, 3) for w in itertools.product("vrmu", repeat=n)]
         words += ["".join(w) for w in itertools.product("vm", repeat=4)] + ["vrum", "uvrv", "vvvu"]
         words += ["".join(w) for n in (1, 2, 3) for w in itertools.product("vsa", repeat=n) if set(w) & set("sa")]
-        words += ["".join(w) for n in (1, 2, 3) for w in itertools.product("vxeq", repeat=n) if set(w) & set("xeq")] + ["kv", "vk", "p", "pv", "vp", "pp", "pvp"]
+        words += ["".join(w) for n in (1, 2, 3) for w in itertools.product("vxeq", repeat=n) if set(w) & set("xeq")] + ["kv", "vk", "p", "pv", "vp", "pp", "pvp", "l", "lv", "vl", "t", "tl", "ll", "vlv"]
         l1_words = ["v", "vv", "vm", "mv", "vr", "uv", "vvv", "vmv", "mvv", "vvm"]
         l1_cfg = [(a, p, n) for a in (None, 1, 2) for p in (0, 1, 2) for n in (None, 1, 2)]
         l2_words = ["vv", "vm"]
